@@ -72,7 +72,8 @@ def main():
         meta["demo_with_patch_exit"] = rc1
         meta["demo_with_patch_tail"] = out1[-400:]
         if not a.skip_tests:
-            env = dict(os.environ, PYTHONPATH=wt)
+            env = dict(os.environ, PYTHONPATH=wt, OMP_NUM_THREADS="1", OPENBLAS_NUM_THREADS="1",
+                       MKL_NUM_THREADS="1", NUMBA_NUM_THREADS="1")
             t0 = time.time()
             rc, out = sh([PY, "-m", "pytest", "-q", "-p", "no:cacheprovider", "--timeout=900",
                           "--continue-on-collection-errors", "tests"], cwd=wt, env=env)
